@@ -59,9 +59,14 @@ func TestC05(t *testing.T) {
 	for i := 0; i < nraw/4; i++ {
 		cases = append(cases, mon.CaseSpec{Name: "rawretry", Spec: c05Spec{Proto: rawp[i%2], Mode: "rawretry", TTL: pickTTL(rnd, 2)}})
 	}
+	for i := 0; i < nraw/6; i++ {
+		cases = append(cases, mon.CaseSpec{Name: "cookedtimeout", Spec: c05Spec{Proto: cooked[i%2], Mode: "cookedtimeout", NCtx: (i / 2) % 2, TTL: pickTTL(rnd, 2)}})
+	}
 	r.Run(cases, func(c *mon.Case) {
 		sp := c.Spec.(c05Spec)
 		switch sp.Mode {
+		case "cookedtimeout":
+			c05CookedTimeout(c, sp)
 		case "seq":
 			c05Seq(c, sp)
 		case "conc":
@@ -76,6 +81,27 @@ func TestC05(t *testing.T) {
 
 // pickTTL: mostly the small hop limits around the default, and in a quarter of the cases a
 // large one, so that routing headers far deeper than the default 8 words are exercised too.
+// sendReply sends body on a cooked replier: with Send, or (junk != nil) with SendMsg of a message
+// whose Header still holds bytes from an earlier life (a gateway answering with a message it got from
+// a raw socket).  The cooked socket owns the header of what it sends: the reply must go out prefixed
+// with exactly the request's routing header either way.
+func sendReply(cx interface {
+	Send([]byte) error
+	SendMsg(*mangos.Message) error
+}, body, junk []byte) error {
+	if junk == nil {
+		return cx.Send(body)
+	}
+	m := mangos.NewMessage(len(body))
+	m.Body = append(m.Body, body...)
+	m.Header = append(m.Header, junk...)
+	err := cx.SendMsg(m)
+	if err != nil {
+		m.Free()
+	}
+	return err
+}
+
 func pickTTL(rnd *rand.Rand, min int) int {
 	if rnd.Intn(4) == 0 {
 		return []int{9, 10, 12, 16, 33, 100, 255}[rnd.Intn(7)]
@@ -251,7 +277,14 @@ func (s *seqRun) send(i int, dropAfter bool) bool {
 			s.multi++
 		}
 	}
-	call := mon.Go("Send", func() (interface{}, error) { return nil, r.ctxs[i].Send(a.body) })
+	viaMsg := c.Rand.Intn(3) == 0
+	var junk []byte
+	if viaMsg {
+		junk = make([]byte, 4*(1+c.Rand.Intn(3)))
+		c.Rand.Read(junk)
+		c.Count("sends_as_message_with_leftover_header", 1)
+	}
+	call := mon.Go("Send", func() (interface{}, error) { return nil, sendReply(r.ctxs[i], a.body, junk) })
 	if !c.AwaitOrViolate(r.proto+"/send-stuck", fmt.Sprintf("ctx %d Send (pending request %d, its connection dropped=%v)", i, reqSerial(q), a.dropBefore), call.Done, mon.AwaitOpts{}) {
 		return false
 	}
@@ -486,7 +519,12 @@ func c05Conc(c *mon.Case, sp c05Spec) {
 				// sound only in this direction: dropped before we even decided to send
 				a.dropBefore = dropped
 				r.mu.Unlock()
-				err = r.ctxs[i].Send(a.body)
+				var junk []byte
+				if lr.Intn(3) == 0 {
+					junk = make([]byte, 4*(1+lr.Intn(3)))
+					lr.Read(junk)
+				}
+				err = sendReply(r.ctxs[i], a.body, junk)
 				r.mu.Lock()
 				a.err, a.returned = err, true
 				r.mu.Unlock()
